@@ -43,10 +43,8 @@ Section Monero.
   Definition priv_public (k : list N) : res (list N) :=
     EdLib.mul_base_bytes G gmul gbase g_is_zero penc k.
 
-  Definition sc_reduce := EdLib.sc_reduce.
-
   (* Monero.__ViewFromSpendKey *)
-  Definition view_from_spend (sk : list N) : res (list N) := priv_from_bytes (sc_reduce (keccak sk)).
+  Definition view_from_spend (sk : list N) : res (list N) := priv_from_bytes (EdLib.sc_reduce (keccak sk)).
 
   (* Monero.FromPrivateSpendKey *)
   Definition from_priv_spend (b : list N) (net : netconf) : res wallet :=
@@ -58,13 +56,13 @@ Section Monero.
 
   (* Monero.FromSeed *)
   Definition spend_bytes_of_seed (seed : list N) : list N :=
-    sc_reduce (if (length seed =? ed_priv_len)%nat then seed else keccak seed).
+    EdLib.sc_reduce (if (length seed =? ed_priv_len)%nat then seed else keccak seed).
   Definition from_seed (seed : list N) (net : netconf) : res wallet :=
     from_priv_spend (spend_bytes_of_seed seed) net.
 
   (* Monero.FromBip44PrivateKey (bytes argument) *)
   Definition from_bip44_priv (k : list N) (net : netconf) : res wallet :=
-    from_priv_spend (sc_reduce (keccak k)) net.
+    from_priv_spend (EdLib.sc_reduce (keccak k)) net.
 
   (* Monero.FromWatchOnly *)
   Definition from_watch_only (vb pb : list N) (net : netconf) : res wallet :=
@@ -81,7 +79,7 @@ Section Monero.
   Definition subaddr_scalar (vk : list N) (major minor : N) : res N :=
     mj <- int_to_le_fixed xmr_sub_idx_len major ;;
     mn <- int_to_le_fixed xmr_sub_idx_len minor ;;
-    Ok (EdLib.int_decode (sc_reduce (keccak (xmr_sub_prefix ++ vk ++ mj ++ mn)))).
+    Ok (EdLib.int_decode (EdLib.sc_reduce (keccak (xmr_sub_prefix ++ vk ++ mj ++ mn)))).
 
   Definition idx_ok (i : Z) : bool := (0 <=? i)%Z && (i <=? xmr_sub_max_idx)%Z.
 
